@@ -1564,14 +1564,19 @@ pub fn run(ctx: &mut Ctx) {
     let t0 = std::time::Instant::now();
     let (e_nst, e_prb) = (expect_nst(), expect_prb());
     let mut n_enum = 0u64;
+    // (an enumeration stops reporting after a few failures: one broken printer fails under every option set)
+    let mut failures = 0;
     for o in &all {
+        if failures >= 4 {
+            break;
+        }
         let c = one_export(&nst::sdl(o.build()), &e_nst, o, false, &open, "static schema nst").class("static:nst");
-        ctx.check_case("static-options", c, json!({"schema": "nst", "options": o.show()}));
+        failures += ctx.check_case("static-options", c, json!({"schema": "nst", "options": o.show()})) as u32;
         let c = one_export(&prb::sdl(o.build()), &e_prb, o, false, &open, "static schema prb (constructs of the findings)").class("static:prb");
-        ctx.check_case("static-options", c, json!({"schema": "prb", "options": o.show()}));
+        failures += ctx.check_case("static-options", c, json!({"schema": "prb", "options": o.show()})) as u32;
         n_enum += 2;
     }
-    ctx.enumerated("static-options", n_enum, true, t0);
+    ctx.enumerated("static-options", n_enum, failures < 4, t0);
 
     // ---- generated dynamic schemas, every option combination on a few
     let t1 = std::time::Instant::now();
@@ -1582,8 +1587,11 @@ pub fn run(ctx: &mut Ctx) {
             Ok((e, schema)) => {
                 let what = format!("generated schema #{}: {}", k, show_expect(&e));
                 for o in &all {
+                    if failures >= 4 {
+                        break;
+                    }
                     let c = one_export(&schema.sdl_with_options(o.build()), &e, o, true, &open, &what).class("dynamic:all-options");
-                    ctx.check_case("dynamic-options", c, json!({"choices": choices, "options": o.show()}));
+                    failures += ctx.check_case("dynamic-options", c, json!({"choices": choices, "options": o.show()})) as u32;
                     n_dyn += 1;
                 }
             }
@@ -1592,7 +1600,7 @@ pub fn run(ctx: &mut Ctx) {
             }
         }
     }
-    ctx.enumerated("dynamic-options", n_dyn, true, t1);
+    ctx.enumerated("dynamic-options", n_dyn, failures < 4, t1);
     ctx.note("option_sets_per_enumerated_schema", json!(all.len()));
 
     // ---- generated dynamic schemas, drawn options
